@@ -29,9 +29,7 @@ def laneletJ (l : Lanelet) : Json :=
 def node (j : Json) : P Node := do
   pure ⟨← getNat j "id", ← getList asNat j "succ", ← getList asNat j "pred", ← getRat j "len"⟩
 
-def pathsJ : Option (List Path) → Json
-  | some ps => okJ (Json.arr (ps.map natsJ).toArray)
-  | none => Json.mkObj [("err", Json.str "nontermination")]
+def pathsJ (r : CR.Res (List Path)) : Json := resJ (fun ps => Json.arr (ps.map natsJ).toArray) r
 
 def handle (op : String) (a : Json) : P Json := do
   match op with
@@ -59,8 +57,7 @@ def handle (op : String) (a : Json) : P Json := do
     let qs ← getList (fun q => do pure (← getNat q "start", ← getRat q "max")) a "queries"
     let mut out : Array Json := #[]
     for (start, mx) in qs do
-      if !closedNet g start then throw s!"C20 routes: network not closed (start {start}); not modelled"
-      out := out.push (Json.arr #[pathsJ (findSuccessors g start mx), pathsJ (findPredecessors g start mx)])
+      out := out.push (Json.arr #[pathsJ (findSuccessorsR g start mx), pathsJ (findPredecessorsR g start mx)])
     pure (Json.arr out)
   | _ => throw s!"C20: unknown op {op}"
 
